@@ -253,6 +253,9 @@ def run(ck):
     from . import c16 as _c16
     _c16.run(_RV05(ck, {"C16.1": "C05.11"}, only_constructs=("createPeaks",)))
     refined_seeds(ck, "C05.12")
+    ck.clause("C05.13", "a peak keeps the score it is given (as C16.8 / C12.7): the top-count seeds are the highest *computed* scores")
+    from .c12 import stored_unconverted as _su05
+    _su05(_RV05(ck, {"C12.7": "C05.13"}, only_files=("src/correlation/peak.py",)), "C12.7")
     from .c08 import aliased_lists
     aliased_lists(ck, "C05.10")      # a filtered (one-per-query) list extended in place holds several records of one query again
 
@@ -467,6 +470,26 @@ def refined_seeds(ck, rule):
     ck.clause(rule, "every selected seed is refined and aligned: nothing is dropped between the selection and the refinement")
     worker = parallel_map_site(ctx)[4]
     refine = private_anchor(ctx, "_WorkflowCoordinator", "__getSecondaryCorrelation", "_WorkflowCoordinator.execute", calls=("refine",))
+    # each seed is refined around its own position, within its own correlation
+    sp = V(refine.call_params()[0].name)
+    n_ref = 0
+    for pa in explore(ck, refine):
+        for t, facts, node, kind in path_terms(pa):
+            for x in T.subterms(t):
+                if x[0] == "app" and x[1].endswith("InitialAlignment.refine"):
+                    n_ref += 1
+                    a = dict(x[3])
+                    recv_ok = x[2] == T.mk_attr(sp, "primaryCorrelation")
+                    pos_ok = a.get("peakPosition") == T.mk_attr(T.mk_attr(sp, "peak"), "position")
+                    ck.judge(recv_ok and pos_ok, rule, short(refine) + ":own-peak", where(refine, node),
+                             "a selected seed is refined in its own correlation around its own position (not around that correlation's "
+                             "highest peak: two seeds of one correlation would give the same candidate twice and the other is never built)",
+                             found=f"{T.show(x[2])[:60]}.refine(peakPosition={T.show(a.get('peakPosition', C(None)))[:80]})",
+                             required="selectedPeak.primaryCorrelation.refine(selectedPeak.peak.position, ...)")
+        if n_ref:
+            break
+    if n_ref == 0:
+        raise AnalysisError(f"{refine.where}: the call of InitialAlignment.refine was not found")
     n = 0
     for pa in explore(ck, worker, unroll=(0, 1)):
         for t, facts, node, kind in path_terms(pa):
